@@ -218,6 +218,9 @@ func genChallenge(rng *rand.Rand, uni bool, withVersion, withInfo, ess bool, nam
 	f := fNTLM | fAlwaysSign | f128 | f56
 	if uni {
 		f |= fUnicode
+		if rng.IntN(4) == 0 {
+			f |= fOEM // both offered: Unicode takes precedence (MS-NLMP 2.2.2.5, flags A and B)
+		}
 	} else {
 		f |= fOEM
 		script = 0
